@@ -7,7 +7,7 @@ patch=$(readlink -f "$1"); id=$2; shift 2
 W=$(mktemp -d /tmp/seedcopy.XXXXXX)
 mkdir -p $W/src && rsync -a --exclude '*.md' /repo/src/ $W/src/ || exit 3
 (cd $W && patch -s -p1 < "$patch") || { echo "patch does not apply"; rm -rf $W; exit 3; }
-cd /verif && VERIF_REPO=$W ./check "$id" "$@" 2>&1 | grep -v '^KNOWN' | tail -12
+cd /verif && VERIF_EVIDENCE_DIR=/verif/out/seed_evidence VERIF_REPO=$W ./check "$id" "$@" 2>&1 | grep -v '^KNOWN' | tail -12
 rc=${PIPESTATUS[0]}
 rm -rf $W
 echo "exit=$rc"
